@@ -47,7 +47,17 @@ def one(a):
             detail = [l.strip() for l in r.stdout.splitlines() if l.startswith(("  site=", "HARNESS"))][:3]
             res["checks"][p] = {"exit": r.returncode, "wall": round(time.time() - t0, 1), "detail": detail}
         res["alarms"] = sorted(p for p, v in res["checks"].items() if v["exit"] != 0)
-        json.dump(res, open(os.path.join(d, "result.json"), "w"), indent=1)
+        # a partial run (--props) updates the stored result instead of replacing it
+        stored = dict(res)
+        rp = os.path.join(d, "result.json")
+        if os.path.exists(rp):
+            try:
+                old = json.load(open(rp))
+                stored["checks"] = dict(old.get("checks", {}), **res["checks"])
+            except Exception:
+                pass
+        stored["alarms"] = sorted(p for p, v in stored["checks"].items() if v["exit"] != 0)
+        json.dump(stored, open(rp, "w"), indent=1)
         return res
     finally:
         shutil.rmtree(scratch, ignore_errors=True)
